@@ -39,6 +39,9 @@ func main() {
 
 	opt := newDefaultOptions()
 	opt.WorkDir = *workDir
+	// The embedded backend implements INCR/DECR and SET NX/XX as read-modify-write
+	// transactions; without conflict detection concurrent clients lose updates.
+	opt.DetectConflicts = true
 	if opt.MaxBatchCount <= 0 {
 		opt.MaxBatchCount = int64(opt.WriteBatchMaxCount)
 		if opt.MaxBatchCount <= 0 {
